@@ -34,12 +34,25 @@ def enc_loc(parts):
     return out
 
 
+# product names travel as character-code lists: the model compares them as strings.  The pool contains names that
+# are proper substrings / prefixes / suffixes of each other (real rule names), a pair differing only in case and an
+# unrelated one.
+PRODUCTS = ["NRPS", "NRPS-like", "nrps", "lanthipeptide-class-i", "lanthipeptide-class-ii", "PKS", "PKS-like", "T1PKS"]
+
+
+def enc_str(text):
+    return [len(text)] + [ord(c) for c in text]
+
+
 def enc_gene(gid, parts, cores):
-    return [gid] + enc_loc(parts) + [len(cores)] + list(cores)
+    out = [gid] + enc_loc(parts) + [len(cores)]
+    for product in cores:
+        out += enc_str(product)
+    return out
 
 
 def enc_area(aid, kind, parts, core, prod, children):
-    return [aid, kind] + enc_loc(parts) + enc_loc(core) + [prod, len(children)] + list(children)
+    return [aid, kind] + enc_loc(parts) + enc_loc(core) + enc_str(prod) + [len(children)] + list(children)
 
 
 def mk_location(parts):
@@ -84,7 +97,7 @@ def mk_cds(gid, parts, cores):
     from antismash.common.secmet.qualifiers.gene_functions import GeneFunction
     cds = DummyCDS(location=mk_location(parts), locus_tag=f"g{gid}")
     for prod in cores:
-        cds.gene_functions.add(GeneFunction.CORE, "verif", "core", product=f"p{prod}")
+        cds.gene_functions.add(GeneFunction.CORE, "verif", "core", product=prod)
     return cds
 
 
@@ -222,7 +235,7 @@ class History:
         self.flat_ops.append([1] + enc_gene(gid, parts, cores))
         self.record.add_cds_feature(cds)
 
-    def _register(self, obj, kind, core=None, prod=0, children=()):
+    def _register(self, obj, kind, core=None, prod="", children=()):
         aid = self.next_aid
         self.next_aid += 1
         self.areas[aid] = obj
@@ -240,7 +253,7 @@ class History:
 
     def add_protocluster(self, parts, core_parts, prod):
         from antismash.common.secmet.features import Protocluster
-        proto = Protocluster(mk_location(core_parts), mk_location(parts), "verif", f"p{prod}", 10, 10, True, "cat")
+        proto = Protocluster(mk_location(core_parts), mk_location(parts), "verif", prod, 10, 10, True, "cat")
         aid = self._register(proto, K_PROTO, core=proto.core_location, prod=prod)
         self.record.add_protocluster(proto)
         return aid
@@ -308,7 +321,8 @@ def gen_history(rng):
         if tuple(parts) in seen and rng.random() < 0.9:
             continue
         seen.add(tuple(parts))
-        cores = [p for p in (1, 2) if rng.random() < 0.35]
+        cores = [p for p in PRODUCTS if rng.random() < 0.25]
+        rng.shuffle(cores)
         genes.append(("gene", len(genes), parts, cores))
     bounds = sorted({x for _, _, parts, _ in genes for s, e, _ in parts for x in (s, e)}) or [0, n]
 
@@ -336,7 +350,7 @@ def gen_history(rng):
                 if gs < ge and len(parts) == 1:
                     cs, ce = gs, ge
                     s, e = max(0, gs - rng.choice([0, 2, 10])), min(n, ge + rng.choice([0, 2, 10]))
-            areas.append(("proto", [(s, e, 1)], [(cs, ce, 1)], rng.choice([1, 2])))
+            areas.append(("proto", [(s, e, 1)], [(cs, ce, 1)], rng.choice(PRODUCTS)))
             if rng.random() < 0.7:
                 members = [len(areas) - 1]
                 earlier = [i for i, other in enumerate(areas[:-1]) if other[0] == "proto"]
@@ -417,7 +431,7 @@ def run_history(n, circular, seq, areas):
 RULE = ("(1) look-ups: records of 8-60 bases (linear / circular), 1-8 genes in layouts monotone (the theorem's guard), nested, "
         "same-start, random, multi-exon and origin-spanning, both strands, shuffled insertion order; queries simple (ends on "
         "gene boundaries +-1), negative start (end >= 1), compound (2-3 parts) and wrapped; with_overlapping both ways. "
-        "(2) histories: 1-8 genes with CORE annotations for two products, 1-6 areas (sub-regions, protoclusters with a core, "
+        "(2) histories: 1-8 genes with CORE annotations for products drawn from a pool of rule names that are substrings / prefixes of each other (compared as strings), 1-6 areas (sub-regions, protoclusters with a core, "
         "candidate clusters of one or two protoclusters) and regions made by create_regions or explicit add_region, interleaved at "
         "random / genes first / areas first; final cds_children, definition_cdses, cds.region, gene order and region order "
         "compared with the model.  The specification (exact set, order) is evaluated on every implementation output; outputs "
@@ -477,7 +491,19 @@ def run(chk):
     corpus_hist = [(1000, False, [("area", ("sub", [(100, 200, 1)])), ("area", ("sub", [(400, 500, 1)])),
                                   ("area", ("sub", [(700, 800, 1)])), ("regions", "create"),
                                   ("gene", 0, [(100, 200, 1)], []), ("gene", 1, [(410, 490, 1)], []),
-                                  ("gene", 2, [(700, 800, -1)], [])])]
+                                  ("gene", 2, [(700, 800, -1)], [])]),
+                   # product names are compared as strings: a gene with a CORE annotation for "lanthipeptide-class-i"
+                   # inside the core of an overlapping "lanthipeptide-class-ii" protocluster is not a definition gene
+                   # of the latter (both build orders)
+                   (2000, False, [("gene", 0, [(120, 290, 1)], ["lanthipeptide-class-i"]),
+                                  ("gene", 1, [(310, 420, 1)], ["lanthipeptide-class-i"]),
+                                  ("area", ("proto", [(70, 470, 1)], [(120, 420, 1)], "lanthipeptide-class-i")),
+                                  ("area", ("proto", [(250, 750, 1)], [(300, 700, 1)], "lanthipeptide-class-ii")),
+                                  ("gene", 2, [(450, 700, -1)], ["lanthipeptide-class-ii"]),
+                                  ("gene", 3, [(1320, 1500, 1)], ["NRPS", "NRPS-like"]),
+                                  ("gene", 4, [(1520, 1600, -1)], ["NRPS"]),
+                                  ("area", ("proto", [(1050, 1650, 1)], [(1100, 1600, 1)], "NRPS-like")),
+                                  ("regions", "create")])]
     hists = []
     for n, circular, seq in corpus_hist:
         hists.append((n, circular, "corpus", "areas_first", seq, [op[1] for op in seq if op[0] == "area"]))
@@ -522,9 +548,14 @@ def run(chk):
         if len(reported) < 3:
             reported.add(i)
             chk.violation("counterexample",
-                          f"{infos[i]['function']}: the implementation's answer is not the set of genes the location "
-                          f"contains/overlaps (guard {'holds' if guard else 'fails'}, class {name})",
-                          {"theorem_or_correspondence": "C08_lookup / C08_membership_exact", "flat": cases[i],
+                          (f"{infos[i]['function']}: the implementation's answer is not the set of genes the location "
+                           f"contains/overlaps" if what == "lookup" else
+                           "history: in the final record some area's cds_children are not exactly the genes its location "
+                           "contains, or a protocluster's definition_cdses are not exactly the genes in its core with a "
+                           "CORE annotation for its product, or a gene's region is not the region containing it")
+                          + f" (guard {'holds' if guard else 'fails'}, class {name})",
+                          {"theorem_or_correspondence": "C08_lookup" if what == "lookup"
+                           else "C08_membership_order_independent", "flat": cases[i],
                            "input": infos[i], "implementation": impl_outs[i], "model": model_outs[i]})
     chk.crosscheck_vm(cases, model_outs)
     return chk.finish(RULE)
